@@ -1,6 +1,6 @@
 /* Allocation-fault model: every malloc/calloc/realloc/posix_memalign of the real code included AFTER
- * this header goes through v_*: when v_alloc_fail is set each request fails nondeterministically
- * (a superset of "exactly the k-th fails"); live allocations are counted so that leak-freedom is an
+ * this header goes through v_*: when armed, exactly one request -- the k-th, k a solver variable -- fails
+ * ("exactly the k-th request fails", k symbolic); live allocations are counted so that leak-freedom is an
  * assertion that also works in the gcc replay build. */
 #ifndef ALLOC_MODEL_H
 #define ALLOC_MODEL_H
@@ -8,7 +8,14 @@
 #include <string.h>
 #include <errno.h>
 int v_alloc_fail, v_alloc_live, v_alloc_failures, v_alloc_requests;
-static int v_should_fail(void) { v_alloc_requests++; if (v_alloc_fail && vinbool()) { v_alloc_failures++; return 1; } return 0; }
+long v_fail_at = -1;   /* index (over allocations AND OS-object creations) of the single request that fails; -1: none */
+static int v_should_fail(void) {
+    long k = v_alloc_requests++;
+    if (v_alloc_fail && k == v_fail_at) { v_alloc_failures++; return 1; }
+    return 0;
+}
+/* call once before the code under test: exactly one request (the k-th, k symbolic in [0,max]) fails, or none (k == max) */
+static void v_arm_single_failure(long max) { v_fail_at = (long)vin_range(0, max); v_alloc_fail = 1; }
 static void *v_malloc(size_t n) { if (v_should_fail()) return NULL; void *p = malloc(n); V_ASSUME(p != NULL); v_alloc_live++; return p; }
 static void *v_calloc(size_t c, size_t n) { if (v_should_fail()) return NULL; void *p = calloc(c, n); V_ASSUME(p != NULL); v_alloc_live++; return p; }
 static void *v_realloc(void *o, size_t n) { if (v_should_fail()) return NULL; void *p = realloc(o, n); V_ASSUME(p != NULL); if (!o) v_alloc_live++; return p; }
